@@ -2192,7 +2192,9 @@ static Boolean SymbolAdder(PTree* PDest, PTree Neu, void* pData) {
                    be moved the same way again: defer the decision until then */
 
                 if ((NewEntry->SymWert.Typ == TempInt)
-                    && (NewEntry->SymWert.Flags & eSymbolFlag_Label) && (*Node)->WasPadded
+                    && (NewEntry->SymWert.Flags
+                        & (eSymbolFlag_Label | eSymbolFlag_StructElem))
+                    && (*Node)->WasPadded
                     && (NewEntry->SymWert.Contents.Int == (*Node)->PrePadValue)) {
                     FlushPendingPhaseError();
                     pPendingPhaseEntry = NewEntry;
